@@ -58,3 +58,48 @@ Proof.
   - subst j. rewrite nth_upd_nth_eq by (rewrite abs_length; lia). f_equal. lia.
   - rewrite nth_upd_nth_neq by lia. reflexivity.
 Qed.
+
+(* raw level: an accepted Set rewrites exactly the b bits of field i and no other bit of any long *)
+Lemma set_accepted st i v : wf st -> (0 <= i < blen st)%Z -> (0 <= v < 2 ^ bits st)%Z ->
+  bs_set st i v = (stored st (Z.to_N i) (Z.to_N v), OUnit).
+Proof.
+  intros W Hi Hv. pose proof (wf_b st W) as Hb.
+  assert (Hsw : in_sw 64 v).
+  { unfold in_sw. change (Z.of_N 64 - 1)%Z with 63%Z.
+    assert (2 ^ bits st <= 2 ^ 63)%Z by (apply Z.pow_le_mono_r; lia). lia. }
+  unfold bs_set. rewrite (vpl_nz st W).
+  assert (Bv : bad_value st v = false).
+  { rewrite (bad_value_spec st v W Hsw). unfold wbits. rewrite Z2N.id by lia. lia. }
+  assert (Bi : bad_index st i = false) by (unfold bad_index; lia).
+  rewrite Bv, Bi.
+  assert (Hi' : (Z.of_N (Z.to_N i) < blen st)%Z) by lia.
+  destruct (locate_ok st (Z.to_N i) W Hi') as [Hloc Hc].
+  replace (Z.of_N (Z.to_N i)) with i in Hloc by lia. rewrite Hloc.
+  rewrite u64_small; [reflexivity|].
+  assert (2 ^ bits st <= 2 ^ 63)%Z by (apply Z.pow_le_mono_r; lia). lia.
+Qed.
+
+Theorem set_raw_bits st i v c j : wf st -> (0 <= i < blen st)%Z -> (0 <= v < 2 ^ bits st)%Z ->
+  let b := wbits st in
+  let ci := N.to_nat (Z.to_N i / spec_vpl b) in
+  let off := b * (Z.to_N i mod spec_vpl b) in
+  N.testbit (nth c (data (fst (bs_set st i v))) 0) j =
+  if (c =? ci)%nat && (off <=? j) && (j <? off + b)
+  then N.testbit (Z.to_N v) (j - off) else N.testbit (nth c (data st) 0) j.
+Proof.
+  intros W Hi Hv b ci off. rewrite set_accepted by auto. cbn [fst].
+  unfold stored. cbn [set_data data]. fold b. fold ci. fold off.
+  pose proof (wf_bits st W) as Hb. fold b in Hb.
+  assert (Hi' : (Z.of_N (Z.to_N i) < blen st)%Z) by lia.
+  destruct (locate_ok st (Z.to_N i) W Hi') as [_ Hc]. fold b in Hc. fold ci in Hc.
+  destruct (Nat.eqb_spec c ci) as [E|E].
+  - subst c. rewrite nth_upd_nth_eq by exact Hc. rewrite (wf_mask st W). fold b.
+    assert (Hvb : Z.to_N v < 2 ^ b).
+    { assert (E : Z.of_N (2 ^ b) = (2 ^ Z.of_N b)%Z) by (rewrite N2Z.inj_pow; reflexivity).
+      unfold b, wbits in *. rewrite Z2N.id in E by lia. lia. }
+    rewrite set_long_bit; auto.
+    + apply nth_lt64, W.
+    + unfold off. apply field_fit; [lia|]. apply N.mod_lt.
+      pose proof (vpl_pos b ltac:(lia)). lia.
+  - rewrite nth_upd_nth_neq by lia. reflexivity.
+Qed.
